@@ -11,7 +11,7 @@
 (* independent, so the rest of the trace is still checked): the verdict is *)
 (* printed and counted, and the logged effect becomes the next state.      *)
 (***************************************************************************)
-EXTENDS Bid, Ops, Json, IOUtils
+EXTENDS Bid, Text, Json, IOUtils
 
 Events == ndJsonDeserialize(IOEnv.VERIF_TRACE)
 
@@ -124,9 +124,45 @@ MiscVerdict(e) ==
     [] e.op = "Signbit" -> B2S(e.b = x.neg)
     [] e.op = "Sign" -> IF IsNaN(x) THEN B2S(Panicked(e)) ELSE B2S(~Panicked(e) /\ e.n = SignSem(x))
 
+\* C05: Parse / MustParse / UnmarshalText / fmt.Sscan
+ParseVerdict(e) ==
+  LET ps == ParseSem(e.s, mode)
+      r == Decode(e.r)
+      must == e.via = "MustParse"
+      agrees == IF ps.val.k = "nan" THEN (IF r.k = "nan" THEN "ok" ELSE "reject") ELSE Agrees(ps.ex, r, mode)
+  IN IF ps.err = "syntax" THEN (IF must THEN B2S(Panicked(e)) ELSE B2S(e.err = "syntax"))
+     ELSE IF ps.err = "nan-signed" THEN                          \* a signed NaN literal: the statement leaves it open
+          B2S((must /\ Panicked(e)) \/ e.err = "syntax" \/ (e.err = "none" /\ r.k = "nan"))
+     ELSE IF must /\ Panicked(e) THEN B2S(ps.err = "range")      \* MustParse cannot return the range error
+     ELSE IF Panicked(e) THEN "reject:panic"
+     ELSE IF ~must /\ e.err # ps.err THEN "reject:err"
+     \* UnmarshalText and Scan report the range error but have no result to return: the receiver may hold
+     \* the infinity or be left as it was (the driver starts from the zero value)
+     ELSE IF ps.err = "range" /\ e.via \in {"UnmarshalText", "Sscan"} /\ e.r = [i \in 1..16 |-> 0] THEN "ok"
+     ELSE agrees
+
+\* C06: default text forms and the way back
+StringVerdict(e) ==
+  LET x == Decode(e.x)
+      s == StringSem(x)
+      same(b) == LET r == Decode(b) IN IF x.k = "nan" THEN r.k = "nan" ELSE ResEq(x, r)
+      back == ParseSem(s, RNE)
+  IN IF e.s # s THEN "reject:String"
+     ELSE IF e.mt # s THEN "reject:MarshalText"
+     ELSE IF e.v # s THEN "reject:%v"
+     ELSE IF e.g # s THEN "reject:g"
+     ELSE IF e.e1 # ShortestE(x) THEN "reject:e"
+     ELSE IF e.f1 # ShortestF(x) THEN "reject:f"
+     ELSE IF ~(e.bperr = "none" /\ same(e.bp)) THEN "reject:Parse-back"
+     ELSE IF ~(e.buerr = "none" /\ same(e.bu)) THEN "reject:UnmarshalText-back"
+     ELSE IF ~(e.bserr = "none" /\ same(e.bs)) THEN "reject:Sscan-back"
+     ELSE IF ~(back.err = "none" /\ (IF x.k = "nan" THEN back.val.k = "nan" ELSE ResEq(back.val, x))) THEN "specfault:roundtrip"
+     ELSE "ok"
+
 \* documented panics only: anything else that panicked is rejected before its own verdict is consulted
 PanicAllowed(e) ==
-  \/ e.op \in {"Sign", "Payload", "Int", "Rat", "Float", "Int32", "Int64", "Uint32", "Uint64", "MustParse"}
+  \/ e.op \in {"Sign", "Payload", "Int", "Rat", "Float", "Int32", "Int64", "Uint32", "Uint64"}
+  \/ (e.op = "Parse" /\ e.via = "MustParse")
 
 RawVerdict(e) ==
   IF ~Frame(e) THEN "reject:frame-mode"
@@ -138,6 +174,8 @@ RawVerdict(e) ==
          [] e.op \in {"Round", "Ceil", "Floor", "PkgRound", "PkgTrunc", "PkgCeil", "PkgFloor"} -> QuantVerdict(e)
          [] e.op \in {"New", "Ldexp", "Frexp"} -> ScaleVerdict(e)
          [] e.op = "Canonical" -> CanonVerdict(e)
+         [] e.op = "Parse" -> ParseVerdict(e)
+         [] e.op = "String" -> StringVerdict(e)
          [] e.op \in {"MarshalBinary", "UnmarshalBinary"} -> BinaryVerdict(e)
          [] e.op \in {"Neg", "Abs", "Min", "Max", "Equal", "Compare", "IsZero", "IsNaN", "IsInf", "Signbit", "Sign"} -> MiscVerdict(e)
          [] OTHER -> "specfault:unknown-op"
